@@ -365,6 +365,24 @@ impl Space for Combo {
 // ---------------------------------------------------------------------------------------------------------------
 // single-token mutations of catalogue entries
 
+/// the exotic token forms of C18's `token-forms` space (attribute contents, literals, patterns, expressions, types, where
+/// predicates in every hole that forwards user tokens): none may make the derive panic
+pub struct TokenForms;
+
+impl Space for TokenForms {
+    type Case = Case;
+    fn name(&self) -> String {
+        "token-forms".into()
+    }
+    fn gen(&self, ctx: &mut Ctx) -> Option<Case> {
+        let (input, tags) = super::c18::gen_token_forms(ctx)?;
+        Some(Case { input, tags, templ: "", traits: "", parts: vec![] })
+    }
+    fn check(&self, case: Case, choices: &[u32], rep: &Report) {
+        check_no_panic(&self.name(), case, choices, rep)
+    }
+}
+
 pub struct Mutate;
 
 const REPL: &[&str] = &["a", "0", "|", ",", ":", ".", "@", "~", "..", "_", "as", "()", "{}", "T"];
@@ -439,6 +457,7 @@ pub fn run(tier: &str) -> i32 {
     rep.assume("a panic is identified by message + file (line numbers are informational)");
     let quick = tier == "quick";
     let caps = Caps::from_env(if quick { 100.0 } else { 1500.0 });
+    run_space(&TokenForms, None, &caps, &rep);
     if quick {
         run_space(&Combo { n: 2, curated: true }, None, &caps, &rep);
         run_space(&Mutate, Some(5), &caps, &rep);
@@ -465,6 +484,8 @@ pub fn replay(f: &Failure) -> i32 {
         replay_space(&Combo { n: p[0].parse().unwrap(), curated: p[1] == "true" }, f, "C16")
     } else if sp == "mutate" {
         replay_space(&Mutate, f, "C16")
+    } else if sp == "token-forms" {
+        replay_space(&TokenForms, f, "C16")
     } else {
         eprintln!("MACHINERY-ERROR: unknown space {}", sp);
         2
